@@ -6,6 +6,7 @@ import (
 	"fmt"
 	"net/url"
 	"os"
+	"strconv"
 	"strings"
 	"sync"
 	"time"
@@ -28,6 +29,8 @@ type world struct {
 	unwound   bool // the call's goroutine is unwinding (panic / Goexit) or has returned
 	closed    bool // the case is over; later sink calls (cleanup) are ignored
 	cleanup   []func()
+	clock     *recClock                // the logger's clock
+	hookBase  int                      // custom hook calls before the current occurrence
 	errOut    *recSink                 // the logger's ErrorOutput
 	cfgMust   func(zapcore.Level) bool // for sinks opened by Config.Build through the c06rec scheme
 	file      *fileObs                 // a real file behind os.Stderr / os.Stdout (constructor kinds)
@@ -53,7 +56,7 @@ func (w *world) terminated() bool {
 	if w.stub != nil && w.stub.Exited {
 		return true
 	}
-	return w.panicHook.calls+w.fatalHook.calls > 0
+	return w.panicHook.calls+w.fatalHook.calls > w.hookBase
 }
 
 // recSink is a WriteSyncer that records what reached it before and after the
@@ -70,6 +73,7 @@ type recSink struct {
 	// after the terminal action began
 	lateWrites int
 	lateSyncs  int
+	mark       int // len(data) when the current occurrence's call began
 	// fault injection
 	failFrom int  // Write number from which Write fails (0: never)
 	syncFail bool // Sync is recorded but returns an error
@@ -114,6 +118,14 @@ func (s *recSink) Sync() error {
 	return nil
 }
 
+// begin marks the start of an occurrence's terminal call.
+func (s *recSink) begin() {
+	s.mu.Lock()
+	defer s.mu.Unlock()
+	s.mark = len(s.data)
+	s.lateWrites, s.lateSyncs = 0, 0
+}
+
 func (w *world) newSink(name string, must func(zapcore.Level) bool) *recSink {
 	s := &recSink{w: w, name: name, must: must}
 	w.sinks = append(w.sinks, s)
@@ -140,18 +152,53 @@ type discard struct{}
 func (discard) Write(p []byte) (int, error) { return len(p), nil }
 func (discard) Sync() error                 { return nil }
 
-type constClock struct{}
-
 var t0 = time.Date(2024, 1, 2, 3, 4, 5, 0, time.UTC)
 
-func (constClock) Now() time.Time                         { return t0 }
-func (constClock) NewTicker(d time.Duration) *time.Ticker { return time.NewTicker(d) }
+// histories: ordinary entries logged before every terminal call
+const (
+	histNone     = "none"
+	histOrdinary = "info+error"
+	histSibling  = "info+production-DPanic-on-sibling-logger"
+)
+
+// clockModes: how the injected clock (zap.WithClock) moves from entry to entry.
+var clockModes = []string{"real", "identical", "+1ns", "-1ns", "-1h"}
+
+// recClock is the logger's clock; it remembers the last time it handed out.
+type recClock struct {
+	mode  string
+	calls int
+	last  time.Time
+}
+
+func (c *recClock) Now() time.Time {
+	c.calls++
+	switch c.mode {
+	case "real":
+		c.last = time.Now()
+	case "+1ns":
+		c.last = t0.Add(time.Duration(c.calls))
+	case "-1ns":
+		c.last = t0.Add(-time.Duration(c.calls))
+	case "-1h":
+		c.last = t0.Add(-time.Duration(c.calls) * time.Hour)
+	default: // identical
+		c.last = t0
+	}
+	return c.last
+}
+
+func (c *recClock) NewTicker(d time.Duration) *time.Ticker { return time.NewTicker(d) }
 
 func newEncoder() zapcore.Encoder {
 	return zapcore.NewJSONEncoder(zapcore.EncoderConfig{
 		MessageKey:  "msg",
 		LevelKey:    "level",
 		EncodeLevel: zapcore.LowercaseLevelEncoder,
+		TimeKey:     "c06ts",
+		EncodeTime: func(t time.Time, enc zapcore.PrimitiveArrayEncoder) {
+			enc.AppendString(strconv.FormatInt(t.UnixNano(), 10))
+		},
 	})
 }
 
@@ -237,7 +284,7 @@ func coreKinds() []coreKind {
 			s := zapcore.NewSamplerWithOptions(inner, time.Hour, 1, 1000)
 			// warm-up: the first entry with this level and message is let
 			// through by Check (and never written); the call under test is the second.
-			_ = s.Check(zapcore.Entry{Level: lvl, Message: msg, Time: t0}, nil)
+			_ = s.Check(zapcore.Entry{Level: lvl, Message: msg, Time: w.clock.Now()}, nil)
 			return s, nil
 		}},
 		{name: "tee(io-lock,io)", cond: condConst(condEnabled), build: func(w *world, _ zapcore.Level, _ string) (zapcore.Core, []zap.Option) {
@@ -421,12 +468,14 @@ func expectedAction(lvl zapcore.Level, dev bool, h hookSetting) action {
 // ---------------------------------------------------------------------------
 // line oracle
 
-// checkLine verifies that data is pre earlier complete lines followed by
-// exactly one complete JSON line carrying the message, the level and the
-// expected fields. For the console encoder (whose stack traces span several
-// lines) it checks that the output is newline-terminated and that its first
-// line carries the capitalised level and the message.
-func checkLine(data []byte, lvl zapcore.Level, msg string, fields map[string]any, pre int, console bool) string {
+// checkLine verifies what reached a sink during one terminal call: complete
+// lines only (earlier, buffered entries may be flushed along), the last of
+// which is the JSON line carrying the message, the level, the expected fields
+// and - where the encoder writes it - the time the clock handed out for this
+// entry. For the console encoder (whose stack traces span several lines) it
+// checks that the output is newline-terminated and that the last line carrying
+// the capitalised level also carries the message.
+func checkLine(data []byte, lvl zapcore.Level, msg string, fields map[string]any, wantTS string, console bool) string {
 	if len(data) == 0 {
 		return "no bytes"
 	}
@@ -435,28 +484,32 @@ func checkLine(data []byte, lvl zapcore.Level, msg string, fields map[string]any
 	}
 	lines := strings.Split(strings.TrimSuffix(string(data), "\n"), "\n")
 	if console {
-		if len(lines) < pre+1 {
-			return fmt.Sprintf("%d lines, want %d earlier ones and the final one: %q", len(lines), pre, data)
+		tag := "\t" + lvl.CapitalString() + "\t"
+		for i := len(lines) - 1; i >= 0; i-- {
+			if strings.Contains(lines[i], tag) {
+				if !strings.Contains(lines[i], "\t"+msg) {
+					return fmt.Sprintf("console line %q does not carry the message %q", lines[i], msg)
+				}
+				return ""
+			}
 		}
-		first := lines[pre]
-		if !strings.Contains(first, "\t"+lvl.CapitalString()+"\t") || !strings.Contains(first, "\t"+msg) {
-			return fmt.Sprintf("console line %q does not carry level %s and message %q", first, lvl.CapitalString(), msg)
-		}
-		return ""
+		return fmt.Sprintf("no console line at level %s: %q", lvl.CapitalString(), data)
 	}
-	if len(lines) != pre+1 {
-		return fmt.Sprintf("%d lines, want %d earlier ones and the final one: %q", len(lines), pre, data)
-	}
-	body := lines[pre]
 	var obj map[string]any
-	if err := json.Unmarshal([]byte(body), &obj); err != nil {
-		return fmt.Sprintf("not valid JSON (%v): %q", err, data)
+	for i, ln := range lines {
+		obj = nil
+		if err := json.Unmarshal([]byte(ln), &obj); err != nil {
+			return fmt.Sprintf("line %d of %d is not valid JSON (%v): %q", i+1, len(lines), err, data)
+		}
 	}
 	if obj["msg"] != msg {
-		return fmt.Sprintf("msg=%q, want %q", obj["msg"], msg)
+		return fmt.Sprintf("last line has msg=%q, want %q", obj["msg"], msg)
 	}
 	if obj["level"] != lvl.String() {
-		return fmt.Sprintf("level=%q, want %q", obj["level"], lvl.String())
+		return fmt.Sprintf("last line has level=%q, want %q", obj["level"], lvl.String())
+	}
+	if ts, ok := obj["c06ts"]; ok && wantTS != "" && ts != wantTS {
+		return fmt.Sprintf("last line has time %v, want %s (the time the logger's clock returned for this entry)", ts, wantTS)
 	}
 	for k, v := range fields {
 		if fmt.Sprint(obj[k]) != fmt.Sprint(v) {
